@@ -157,6 +157,26 @@ class MetadataManager:
             self.lock_provider.acquire()
 
             try:
+                # On CAS backends, capture the hint's ETag BEFORE the validation
+                # read below, so the conditional PUT at the commit point can only
+                # succeed if the hint has not changed since a moment that
+                # PRECEDES validation - i.e. the version we replace is the very
+                # version we validated against. Reading the ETag after
+                # validation (as this used to) let a commit that landed between
+                # the two reads be overwritten by a "successful" CAS whenever
+                # the lock did not exclude it (lease takeover, broken lock).
+                hint_etag: Optional[str] = None
+                filesystem_version: Optional[int] = None
+                previous_metadata_file: Optional[str] = None
+                if self.storage.supports_cas:
+                    try:
+                        hint_bytes, hint_etag = self.storage.read_file_with_etag(self.HINT_PATH)
+                        parsed = self._parse_hint_content(hint_bytes)
+                        if parsed is not None:
+                            filesystem_version, previous_metadata_file = parsed
+                    except FileNotFoundError:
+                        hint_etag = None
+
                 # PHASE 1: Validation (inside lock to prevent races)
                 current = self.refresh()
 
@@ -190,19 +210,6 @@ class MetadataManager:
                     base_metadata.last_updated_ms + 1,
                 )
 
-                # Read current version (and, on CAS backends, the hint's ETag so
-                # the commit point below can be a true compare-and-swap).
-                hint_etag: Optional[str] = None
-                filesystem_version: Optional[int] = None
-                previous_metadata_file: Optional[str] = None
-                if self.storage.supports_cas:
-                    try:
-                        hint_bytes, hint_etag = self.storage.read_file_with_etag(self.HINT_PATH)
-                        parsed = self._parse_hint_content(hint_bytes)
-                        if parsed is not None:
-                            filesystem_version, previous_metadata_file = parsed
-                    except FileNotFoundError:
-                        hint_etag = None
                 if filesystem_version is None:
                     info = self._current_version_info()
                     if info is not None:
